@@ -1,11 +1,12 @@
 package main
 
 import (
-	"strings"
+	"bytes"
 	"encoding/json"
 	"fmt"
 	"math/big"
 	"math/rand/v2"
+	"strings"
 
 	"github.com/onflow/crypto"
 	"github.com/onflow/crypto/hash"
@@ -16,12 +17,21 @@ type c02Triple struct {
 	Tag    string `json:"tag"`
 	Msg    string `json:"msg"`
 	Reuse  int    `json:"reuse"` // >= 0: reuse the key OBJECT of that earlier index (same object); -1: decode a fresh object
+	// Out: when set, the hasher at this index is a fixed-output hasher returning these 128 bytes (chosen
+	// hasher outputs: equal outputs for different messages, outputs whose curve images cancel)
+	Out string `json:"out,omitempty"`
+	// Src: route by which the public key OBJECT is obtained.  Non-zero scalar: "" = PublicKey() of the decoded
+	// private key, decoded | agg-split | removed | agg-single.  Zero scalar (identity key): "" = the package
+	// constant, decoded | aggregated | removed
+	Src string `json:"src,omitempty"`
 }
 type c02In struct {
 	Shape   string      `json:"shape"`
 	Triples []c02Triple `json:"triples"`
 	One     bool        `json:"one_message"` // VerifyBLSSignatureOneMessage (all triples share tag/msg of the first)
 	Salt    uint64      `json:"salt"`
+	// ShareHashers: triples with the same tag use ONE hasher object (the usual calling pattern)
+	ShareHashers bool `json:"share_hashers,omitempty"`
 }
 
 func init() {
@@ -32,7 +42,7 @@ func init() {
 		PropCheck: "prop_bad_ids",
 		Gen:       c02Gen,
 		Run:       c02Run,
-		Rule:      "lists of (key, message, hasher) triples in shapes that force each internal grouping (all distinct, all equal, few messages/many keys, few keys/many messages, exact ties), duplicated pairs, the same key as one object / as two decoded objects, pk and -pk on one message, identity key at each position, per-index tags, n=1; candidate signatures: honest aggregate, one altered share, aggregate+torsion, negated, bit flip, wrong length; the runner also checks permuted triples, typed errors (length mismatch, empty, bad hashers, non-BLS keys) on the implementation; distinct by input",
+		Rule:      "lists of (key, message, hasher) triples in shapes that force each internal grouping (all distinct, all equal, few messages/many keys, few keys/many messages, exact ties), duplicated pairs, the same key as one object / as two decoded objects, pk and -pk on one message, identity key at each position and from every constructor (constant, decoded, aggregated, removed; first, last, middle; only identity keys) through both APIs, non-identity key objects through every route (decoded, aggregate of two halves / of one key, removed from an aggregate) and the same point held by objects from different routes, per-index tags, one hasher object shared by all triples of a tag, fixed-output hashers with chosen outputs (hashes under one key that cancel H / -H, alone, next to another key and across groups; equal outputs for different messages; equal halves), doubling inside a key group and inside a hash group, cancelling keys under the per-key grouping, groups of unequal sizes in both groupings, more than 256 triples (one message incl. the one-message API, three keys, ONE key with more than 256 messages, all distinct), n=1; candidate signatures: honest aggregate, one altered share, aggregate+torsion (random and order 3), negated, bit flip, wrong length, nil, infinity with a stray byte, compression flag cleared, the honest aggregate again after the rejected ones; the runner also checks every candidate on permuted triples, n=1 against Verify, the one-message API against Verify under AggregateBLSPublicKeys and on permuted keys, typed errors each with a valid and with a non-parsing signature (nil hasher and hashers of size 0/64/127/129/256 at first/last/middle index, non-BLS and nil keys at each of these, all nine ways the list lengths can differ, nil and empty key lists) for both APIs, and that keys, messages and signature are unmodified; distinct by input",
 		Shard:     2,
 	})
 }
@@ -52,12 +62,27 @@ func c02Gen(tier string, r *rand.Rand) []Case {
 	if tier == "thorough" {
 		maxN, reps = 24, 6
 	}
+	tr := func(sc, tag, msg string, reuse int) c02Triple {
+		return c02Triple{Scalar: sc, Tag: tag, Msg: msg, Reuse: reuse}
+	}
 	add := func(shape string, ts []c02Triple, one bool) {
-		cs = append(cs, mkcase(shape, c02In{shape, ts, one, r.Uint64()}))
+		cs = append(cs, mkcase(shape, c02In{Shape: shape, Triples: ts, One: one, Salt: r.Uint64()}))
+	}
+	addShared := func(shape string, ts []c02Triple, one bool) {
+		cs = append(cs, mkcase(shape, c02In{Shape: shape, Triples: ts, One: one, Salt: r.Uint64(), ShareHashers: true}))
+	}
+	// fixed hasher outputs: a random one and its "negative" (both halves negated mod p: the curve image is
+	// the negated point), used to make the hashes under one key cancel
+	rndOut := func() (string, string) {
+		u0 := new(big.Int).Mod(new(big.Int).SetBytes(rbytes(r, 64)), blsP)
+		u1 := new(big.Int).Mod(new(big.Int).SetBytes(rbytes(r, 64)), blsP)
+		pos := append(fixed(u0, 64), fixed(u1, 64)...)
+		ng := append(fixed(new(big.Int).Sub(blsP, u0), 64), fixed(new(big.Int).Sub(blsP, u1), 64)...)
+		return hx(pos), hx(ng)
 	}
 	// more than 256 triples (index arithmetic of the C layer): few messages / many keys, many messages /
 	// few keys, all distinct
-	for _, sh := range []string{"large-one-message", "large-few-keys", "large-all-distinct"} {
+	for _, sh := range []string{"large-one-message", "large-few-keys", "large-one-key", "large-all-distinct"} {
 		n := 257 + r.IntN(20)
 		if tier != "thorough" && sh == "large-all-distinct" {
 			continue
@@ -67,11 +92,19 @@ func c02Gen(tier string, r *rand.Rand) []Case {
 		for i := 0; i < n; i++ {
 			switch sh {
 			case "large-one-message":
-				ts = append(ts, c02Triple{rs(), "t", hx([]byte("large")), -1})
+				ts = append(ts, c02Triple{Scalar: rs(), Tag: "t", Msg: hx([]byte("large")), Reuse: -1})
 			case "large-few-keys":
-				ts = append(ts, c02Triple{keys[i%3], "t", hx([]byte(fmt.Sprintf("large-%d", i))), -1})
+				ts = append(ts, c02Triple{Scalar: keys[i%3], Tag: "t", Msg: hx([]byte(fmt.Sprintf("large-%d", i))), Reuse: -1})
+			case "large-one-key":
+				// more than 256 hashes under ONE key (per-key grouping, one group count above a byte) and a
+				// second key with a single message
+				k := keys[0]
+				if i == n/2 {
+					k = keys[1]
+				}
+				ts = append(ts, c02Triple{Scalar: k, Tag: "t", Msg: hx([]byte(fmt.Sprintf("large-%d", i))), Reuse: -1})
 			default:
-				ts = append(ts, c02Triple{rs(), "t", hx([]byte(fmt.Sprintf("large-%d", i))), -1})
+				ts = append(ts, c02Triple{Scalar: rs(), Tag: "t", Msg: hx([]byte(fmt.Sprintf("large-%d", i))), Reuse: -1})
 			}
 		}
 		add(sh, ts, false)
@@ -82,56 +115,56 @@ func c02Gen(tier string, r *rand.Rand) []Case {
 		// all distinct keys and messages (tie: #hashes = #keys -> per-key path)
 		var ts []c02Triple
 		for i := 0; i < n; i++ {
-			ts = append(ts, c02Triple{rs(), "t", msg(i), -1})
+			ts = append(ts, c02Triple{Scalar: rs(), Tag: "t", Msg: msg(i), Reuse: -1})
 		}
 		add("all-distinct", ts, false)
 		// one message, many keys (per-message path)
 		ts = nil
 		for i := 0; i < n; i++ {
-			ts = append(ts, c02Triple{rs(), "t", msg(0), -1})
+			ts = append(ts, c02Triple{Scalar: rs(), Tag: "t", Msg: msg(0), Reuse: -1})
 		}
 		add("one-message-many-keys", ts, false)
 		add("one-message-api", ts, true)
 		// one key, many messages (per-key path), same object reused
 		k := rs()
-		ts = []c02Triple{{k, "t", msg(0), -1}}
+		ts = []c02Triple{tr(k, "t", msg(0), -1)}
 		for i := 1; i < n; i++ {
-			ts = append(ts, c02Triple{k, "t", msg(i), 0})
+			ts = append(ts, c02Triple{Scalar: k, Tag: "t", Msg: msg(i), Reuse: 0})
 		}
 		add("one-key-many-messages", ts, false)
 		// the same key decoded twice: distinct objects for the key map
-		ts = []c02Triple{{k, "t", msg(0), -1}, {k, "t", msg(1), -1}, {k, "t", msg(0), -1}}
+		ts = []c02Triple{tr(k, "t", msg(0), -1), tr(k, "t", msg(1), -1), tr(k, "t", msg(0), -1)}
 		add("same-key-two-objects", ts, false)
 		// duplicated (key, message) pairs
 		k2 := rs()
-		ts = []c02Triple{{k, "t", msg(0), -1}, {k2, "t", msg(1), -1}, {k, "t", msg(0), 0}, {k2, "t", msg(1), 1}}
+		ts = []c02Triple{tr(k, "t", msg(0), -1), tr(k2, "t", msg(1), -1), tr(k, "t", msg(0), 0), tr(k2, "t", msg(1), 1)}
 		add("duplicate-pairs", ts, false)
 		// pk and -pk on one message: the pair cancels
-		ts = []c02Triple{{k, "t", msg(0), -1}, {neg(k), "t", msg(0), -1}, {k2, "t", msg(1), -1}}
+		ts = []c02Triple{tr(k, "t", msg(0), -1), tr(neg(k), "t", msg(0), -1), tr(k2, "t", msg(1), -1)}
 		add("cancelling-keys", ts, false)
-		ts = []c02Triple{{k, "t", msg(0), -1}, {neg(k), "t", msg(0), -1}}
+		ts = []c02Triple{tr(k, "t", msg(0), -1), tr(neg(k), "t", msg(0), -1)}
 		add("cancelling-keys-only", ts, false)
 		add("cancelling-keys-one-message-api", ts, true)
 		// per-index tags
 		ts = nil
 		for i := 0; i < n; i++ {
-			ts = append(ts, c02Triple{rs(), fmt.Sprintf("tag%d", i%2), msg(i % 2), -1})
+			ts = append(ts, tr(rs(), fmt.Sprintf("tag%d", i%2), msg(i%2), -1))
 		}
 		add("per-index-tags", ts, false)
 		// ONE message under different per-index hashers (tags): H_i(m) differs although the message bytes agree
 		ts = nil
 		for i := 0; i < n; i++ {
-			ts = append(ts, c02Triple{rs(), fmt.Sprintf("tag%d", i%2), msg(0), -1})
+			ts = append(ts, tr(rs(), fmt.Sprintf("tag%d", i%2), msg(0), -1))
 		}
 		add("same-message-different-tags", ts, false)
-		ts = []c02Triple{{k, "tagA", msg(0), -1}, {k2, "tagB", msg(0), -1}}
+		ts = []c02Triple{tr(k, "tagA", msg(0), -1), tr(k2, "tagB", msg(0), -1)}
 		add("same-message-different-tags", ts, false)
-		ts = []c02Triple{{k, "tagA", msg(0), -1}, {k2, "tagB", msg(1), -1}, {k, "tagC", msg(0), 0}}
+		ts = []c02Triple{tr(k, "tagA", msg(0), -1), tr(k2, "tagB", msg(1), -1), tr(k, "tagC", msg(0), 0)}
 		add("same-message-different-tags", ts, false)
 		// few messages / many keys with a tie broken each way
 		ts = nil
 		for i := 0; i < n; i++ {
-			ts = append(ts, c02Triple{rs(), "t", msg(i % 2), -1})
+			ts = append(ts, c02Triple{Scalar: rs(), Tag: "t", Msg: msg(i % 2), Reuse: -1})
 		}
 		add("two-messages", ts, false)
 		// identity key at each position
@@ -142,14 +175,126 @@ func c02Gen(tier string, r *rand.Rand) []Case {
 			if i == pos {
 				s = zero
 			}
-			ts = append(ts, c02Triple{s, "t", msg(i), -1})
+			ts = append(ts, c02Triple{Scalar: s, Tag: "t", Msg: msg(i), Reuse: -1})
 		}
 		add("identity-key", ts, false)
+		// the identity key from EVERY constructor (each fills the cached identity flag on its own), first, last
+		// and in the middle, through both APIs
+		for j, src := range []string{"", "decoded", "aggregated", "removed"} {
+			at := []int{0, n - 1, n / 2, 0}[j]
+			ts = nil
+			for i := 0; i < n; i++ {
+				t := tr(rs(), "t", msg(i), -1)
+				if i == at {
+					t.Scalar, t.Src = zero, src
+				}
+				ts = append(ts, t)
+			}
+			add("identity-key-"+map[string]string{"": "constant"}[src]+src, ts, false)
+			if j%2 == 1 {
+				add("identity-key-"+src+"-one-message-api", ts, true)
+			}
+		}
+		ts = []c02Triple{{Scalar: zero, Tag: "t", Msg: msg(0), Reuse: -1, Src: "decoded"}, {Scalar: zero, Tag: "t", Msg: msg(1), Reuse: -1, Src: "removed"}}
+		add("identity-keys-only", ts, false)
+		add("identity-keys-only-one-message-api", ts, true)
+		// non-identity key objects through every route (decoded bytes, aggregate of two halves, removal from
+		// an aggregate, aggregate of one key); the SAME point held by objects from different routes
+		ts = nil
+		for i, src := range []string{"decoded", "agg-split", "removed", "agg-single", ""} {
+			ts = append(ts, c02Triple{Scalar: rs(), Tag: "t", Msg: msg(i % 3), Reuse: -1, Src: src})
+		}
+		add("key-routes", ts, false)
+		add("key-routes-one-message-api", ts, true)
+		ts = nil
+		for i, src := range []string{"", "decoded", "agg-split", "removed"} {
+			ts = append(ts, c02Triple{Scalar: k, Tag: "t", Msg: msg(i % 2), Reuse: -1, Src: src})
+		}
+		ts = append(ts, tr(k2, "t", msg(2), -1))
+		add("same-point-different-routes", ts, false)
+		// one hasher OBJECT for all triples / per tag (the usual calling pattern)
+		ts = nil
+		for i := 0; i < n+1; i++ {
+			ts = append(ts, tr(rs(), fmt.Sprintf("tag%d", i%2), msg(i%3), -1))
+		}
+		addShared("shared-hasher-objects", ts, false)
+		// doubling inside a group: the same key twice on one message with more keys than messages (one pairing
+		// per message, the key sum doubles), and under one key the same message twice (hash sum doubles)
+		ts = []c02Triple{tr(k, "t", msg(0), -1), tr(k, "t", msg(0), -1), tr(k2, "t", msg(0), -1)}
+		add("doubling-per-message", ts, false)
+		ts = []c02Triple{tr(k, "t", msg(0), -1), tr(k, "t", msg(0), 0), tr(k, "t", msg(1), 0), tr(k2, "t", msg(2), -1), tr(k2, "t", msg(3), -1)}
+		add("doubling-per-key", ts, false)
+		// cancelling keys while the grouping is per key (tie: 3 keys, 3 messages)
+		ts = []c02Triple{tr(k, "t", msg(0), -1), tr(neg(k), "t", msg(0), -1), tr(k2, "t", msg(1), -1), tr(k2, "t", msg(2), 2)}
+		add("cancelling-keys-per-key", ts, false)
+		// chosen hasher outputs: the hashes under ONE key cancel (H and -H), alone and next to another key;
+		// equal hasher outputs for different messages (one hash group); equal halves (doubling in map_to_G1)
+		po, ng := rndOut()
+		po2, _ := rndOut()
+		fx := func(sc, out, m string, reuse int) c02Triple {
+			return c02Triple{Scalar: sc, Tag: "t", Msg: m, Reuse: reuse, Out: out}
+		}
+		ts = []c02Triple{fx(k, po, msg(0), -1), fx(k, ng, msg(1), 0), fx(k2, po2, msg(2), -1), tr(k2, "t", msg(3), 2)}
+		add("cancelling-hashes-per-key", ts, false)
+		ts = []c02Triple{fx(k, po, msg(0), -1), fx(k, ng, msg(1), 0)}
+		add("cancelling-hashes-only", ts, false)
+		ts = []c02Triple{fx(k, po, msg(0), -1), fx(k2, ng, msg(1), -1), fx(rs(), po, msg(2), -1), fx(rs(), ng, msg(3), -1), fx(rs(), po2, msg(4), -1)}
+		add("cancelling-hashes-per-message", ts, false)
+		ts = []c02Triple{fx(k, po, msg(0), -1), fx(k2, po, msg(1), -1), fx(rs(), po, msg(2), -1), fx(rs(), po2, msg(0), -1)}
+		add("equal-hashes-different-messages", ts, false)
+		eq := po[:128] + po[:128]
+		ts = []c02Triple{fx(k, eq, msg(0), -1), fx(k2, eq, msg(0), -1), tr(rs(), "t", msg(0), -1)}
+		add("equal-halves-hasher-output", ts, false)
+		// groups of unequal sizes in both groupings (the largest group is not the first one)
+		ts = nil
+		for i, g := range []int{0, 1, 1, 1, 2, 2} {
+			_ = i
+			ts = append(ts, tr(rs(), "t", msg(g), -1))
+		}
+		add("uneven-groups-per-message", ts, false)
+		ks3 := []string{rs(), rs(), rs()}
+		ts = nil
+		first := map[int]int{}
+		for i, g := range []int{0, 1, 1, 1, 2, 2, 1} {
+			ru := -1
+			if f, ok := first[g]; ok {
+				ru = f
+			} else {
+				first[g] = i
+			}
+			ts = append(ts, tr(ks3[g], "t", msg(i), ru))
+		}
+		add("uneven-groups-per-key", ts, false)
 		// n = 1
-		add("single", []c02Triple{{rs(), "t", msg(0), -1}}, false)
-		add("single-one-message-api", []c02Triple{{rs(), "t", msg(0), -1}}, true)
+		add("single", []c02Triple{tr(rs(), "t", msg(0), -1)}, false)
+		add("single-one-message-api", []c02Triple{tr(rs(), "t", msg(0), -1)}, true)
 	}
 	return cs
+}
+
+// c02IdentityKey returns an identity public key OBJECT built through the named route.
+func c02IdentityKey(src string, rr *rand.Rand) (crypto.PublicKey, error) {
+	switch src {
+	case "decoded":
+		return crypto.DecodePublicKey(crypto.BLSBLS12381, crypto.IdentityBLSPublicKey().Encode())
+	case "aggregated", "removed":
+		x := new(big.Int).Mod(new(big.Int).SetBytes(rbytes(rr, 40)), new(big.Int).Sub(blsR, big.NewInt(1)))
+		x.Add(x, big.NewInt(1))
+		a, e1 := crypto.DecodePrivateKey(crypto.BLSBLS12381, fixed(x, 32))
+		b, e2 := crypto.DecodePrivateKey(crypto.BLSBLS12381, fixed(new(big.Int).Sub(blsR, x), 32))
+		if e1 != nil || e2 != nil {
+			return nil, fmt.Errorf("%v %v", e1, e2)
+		}
+		if src == "aggregated" {
+			return crypto.AggregateBLSPublicKeys([]crypto.PublicKey{a.PublicKey(), b.PublicKey()})
+		}
+		ag, err := crypto.AggregateBLSPublicKeys([]crypto.PublicKey{a.PublicKey(), a.PublicKey()})
+		if err != nil {
+			return nil, err
+		}
+		return crypto.RemoveBLSPublicKeys(ag, []crypto.PublicKey{a.PublicKey(), a.PublicKey()})
+	}
+	return crypto.IdentityBLSPublicKey(), nil
 }
 
 func c02Run(c Case) (Result, error) {
@@ -188,7 +333,17 @@ func c02Run(c Case) (Result, error) {
 				return Result{}, implViolation("%s: aggregate with the share at position %d of %d replaced is accepted", in.Shape, pos, len(sigs))
 			}
 		}
-		// swapped shares between positions i and i+256 (same message or not): still the same sum
+		if in.Shape == "large-one-message" {
+			if ok, e := crypto.VerifyBLSSignatureOneMessage(pks, agg, msgs[0], hashers[0]); !ok || e != nil {
+				return Result{}, implViolation("%s: VerifyBLSSignatureOneMessage rejects the honest aggregate of %d signatures (%v, %v)", in.Shape, len(sigs), ok, e)
+			}
+			if ok, _ := crypto.VerifyBLSSignatureOneMessage(pks[1:], agg, msgs[0], hashers[0]); ok {
+				return Result{}, implViolation("%s: VerifyBLSSignatureOneMessage accepts the aggregate of %d signatures under %d of the keys", in.Shape, len(sigs), len(sigs)-1)
+			}
+			if ok, _ := crypto.VerifyBLSSignatureOneMessage(append(pks[256:257:257], pks...), agg, msgs[0], hashers[0]); ok {
+				return Result{}, implViolation("%s: VerifyBLSSignatureOneMessage accepts the aggregate with key 256 counted twice", in.Shape)
+			}
+		}
 		sub := in
 		sub.Shape, sub.Triples = "all-distinct", in.Triples[:2]
 		b, _ := json.Marshal(sub)
@@ -204,12 +359,22 @@ func c02Run(c Case) (Result, error) {
 	var coqT []string
 	var coqS []string
 	var hEnc0 []byte
+	sharedHashers := map[string]hash.Hasher{}
 	for i, t := range in.Triples {
 		tag, msg := t.Tag, unhx(t.Msg)
 		if in.One {
 			tag, msg = in.Triples[0].Tag, unhx(in.Triples[0].Msg)
 		}
-		hs := crypto.NewExpandMsgXOFKMAC128(tag)
+		var hs hash.Hasher
+		switch {
+		case t.Out != "" && !in.One:
+			hs = &fixedHasher{unhx(t.Out)}
+		case in.ShareHashers && sharedHashers[tag] != nil:
+			hs = sharedHashers[tag]
+		default:
+			hs = crypto.NewExpandMsgXOFKMAC128(tag)
+			sharedHashers[tag] = hs
+		}
 		var pk crypto.PublicKey
 		sc := new(big.Int).SetBytes(unhx(t.Scalar))
 		hEnc, _ := one.Sign(msg, hs)
@@ -217,7 +382,11 @@ func c02Run(c Case) (Result, error) {
 			hEnc0 = hEnc
 		}
 		if sc.Sign() == 0 {
-			pk = crypto.IdentityBLSPublicKey()
+			var err error
+			pk, err = c02IdentityKey(t.Src, rr)
+			if err != nil {
+				return Result{}, implViolation("identity key through route %q: %v", t.Src, err)
+			}
 		} else {
 			sk, err := crypto.DecodePrivateKey(crypto.BLSBLS12381, unhx(t.Scalar))
 			if err != nil {
@@ -225,6 +394,11 @@ func c02Run(c Case) (Result, error) {
 			}
 			if t.Reuse >= 0 && t.Reuse < len(pks) {
 				pk = pks[t.Reuse]
+			} else if t.Src != "" {
+				pk, err = c01RoutePk(t.Src, sk, sc, rr)
+				if err != nil {
+					return Result{}, implViolation("public key through route %q: %v", t.Src, err)
+				}
 			} else {
 				pk = sk.PublicKey()
 			}
@@ -254,10 +428,20 @@ func c02Run(c Case) (Result, error) {
 	if len(sigs) > 0 {
 		agg, _ = crypto.AggregateBLSSignatures(sigs)
 	}
+	// snapshots for "arguments are read only"
+	var pkEnc0 [][]byte
+	var msgs0 [][]byte
+	for i := range pks {
+		pkEnc0 = append(pkEnc0, pks[i].Encode())
+		msgs0 = append(msgs0, append([]byte{}, msgs[i]...))
+	}
+	agg0 := append([]byte{}, agg...)
 	add("honest-aggregate", agg)
-	P := e1Decompress(agg)
-	add("negated", e1Compress(e1Neg(P)))
-	add("plus-torsion", e1Compress(e1Add(P, e1Torsion(rr))))
+	if P, ok := e1DecompressSafe(agg); ok {
+		add("negated", e1Compress(e1Neg(P)))
+		add("plus-torsion", e1Compress(e1Add(P, e1Torsion(rr))))
+		add("plus-torsion-order-3", e1Compress(e1Add(P, e1SmallOrder(rr, 3))))
+	}
 	if len(sigs) > 0 {
 		// one share altered: replace by a signature on another message
 		k3, _ := crypto.GeneratePrivateKey(crypto.BLSBLS12381, rbytes(rr, 32))
@@ -274,11 +458,153 @@ func c02Run(c Case) (Result, error) {
 	add("identity-signature", inf)
 	add("short", agg[:47])
 	add("long", append(append([]byte{}, agg...), 0))
+	stray := append([]byte{}, inf...)
+	stray[1+rr.IntN(47)] = byte(1 + rr.IntN(255))
+	add("infinity-stray-byte", stray)
+	nc := append([]byte{}, agg...)
+	nc[0] &= 0x7F
+	add("compression-flag-cleared", nc)
+	add("nil-signature", nil)
+	add("honest-aggregate-again", agg) // after the rejected candidates: verification keeps no state
 	// implementation-level invariances and typed errors
 	consistent := true
 	var why []string
 	fail := func(s string) { consistent = false; why = append(why, s) }
+	ek, _ := crypto.GeneratePrivateKey(crypto.ECDSAP256, rbytes(rr, 32))
+	malformed := append([]byte{}, agg...)
+	malformed[0] &= 0x7F
+	n := len(pks)
+	positions := []int{0}
+	if n > 1 {
+		positions = append(positions, n-1)
+	}
+	if n > 2 {
+		positions = append(positions, n/2)
+	}
+	if in.One {
+		// VerifyBLSSignatureOneMessage = Verify under the aggregated key, for every candidate; independent of
+		// the order of the keys; documented typed errors, each with otherwise valid arguments, at every
+		// position, and together with a signature that does not parse (judged here: OneCase carries no flag)
+		aggPk, err := crypto.AggregateBLSPublicKeys(pks)
+		if err != nil {
+			return Result{}, implViolation("AggregateBLSPublicKeys failed on valid keys: %v", err)
+		}
+		perm := rr.Perm(n)
+		var pp []crypto.PublicKey
+		for _, i := range perm {
+			pp = append(pp, pks[i])
+		}
+		for _, cd := range cands {
+			var b []byte
+			if cd.Fam != "nil-signature" {
+				b = unhx(cd.Bytes)
+			}
+			ok, e := aggPk.Verify(b, msgs[0], hashers[0])
+			if v := verdictClass(ok, e); v != cd.V {
+				return Result{}, implViolation("VerifyBLSSignatureOneMessage gives %s, Verify under AggregateBLSPublicKeys gives %s (candidate %s %s)", cd.V, v, cd.Fam, cd.Bytes)
+			}
+			if v := verify(b, pp, msgs, hashers); v != cd.V {
+				return Result{}, implViolation("VerifyBLSSignatureOneMessage gives %s, %s with the keys permuted %v (candidate %s %s)", cd.V, v, perm, cd.Fam, cd.Bytes)
+			}
+		}
+		for _, sg := range [][]byte{agg, malformed, agg[:47], nil} {
+			if _, e := crypto.VerifyBLSSignatureOneMessage(pks, sg, msgs[0], nil); !crypto.IsNilHasherError(e) {
+				return Result{}, implViolation("VerifyBLSSignatureOneMessage, nil hasher, %d-byte signature %x: error %v", len(sg), sg, e)
+			}
+			for _, sz := range []int{0, 64, 127, 129, 256} {
+				if ok, e := crypto.VerifyBLSSignatureOneMessage(pks, sg, msgs[0], &fixedHasher{make([]byte, sz)}); !crypto.IsInvalidHasherSizeError(e) || ok {
+					return Result{}, implViolation("VerifyBLSSignatureOneMessage, hasher of size %d, %d-byte signature %x: (%v, %v)", sz, len(sg), sg, ok, e)
+				}
+			}
+			for _, l := range [][]crypto.PublicKey{nil, {}} {
+				if ok, e := crypto.VerifyBLSSignatureOneMessage(l, sg, msgs[0], hashers[0]); !crypto.IsBLSAggregateEmptyListError(e) || ok {
+					return Result{}, implViolation("VerifyBLSSignatureOneMessage, empty key list, %d-byte signature: (%v, %v)", len(sg), ok, e)
+				}
+			}
+			for _, pos := range positions {
+				for _, foreign := range []crypto.PublicKey{ek.PublicKey(), nil} {
+					bp := append([]crypto.PublicKey{}, pks...)
+					bp[pos] = foreign
+					var ok bool
+					var e error
+					if pn, m := catch(func() { ok, e = crypto.VerifyBLSSignatureOneMessage(bp, sg, msgs[0], hashers[0]) }); pn {
+						return Result{}, implViolation("VerifyBLSSignatureOneMessage panics with a non-BLS key (%v) at index %d of %d: %s", foreign, pos, n, m)
+					}
+					if !crypto.IsNotBLSKeyError(e) || ok {
+						return Result{}, implViolation("VerifyBLSSignatureOneMessage, non-BLS key (%v) at index %d of %d, %d-byte signature: (%v, %v)", foreign, pos, n, len(sg), ok, e)
+					}
+				}
+			}
+		}
+	}
 	if !in.One {
+		if n == 1 {
+			// one triple: the documented behaviour is that of pk.Verify
+			for _, cd := range cands {
+				var b []byte
+				if cd.Fam != "nil-signature" {
+					b = unhx(cd.Bytes)
+				}
+				ok, e := pks[0].Verify(b, msgs[0], hashers[0])
+				if v := verdictClass(ok, e); v != cd.V {
+					fail(fmt.Sprintf("one triple: VerifyBLSSignatureManyMessages gives %s, Verify gives %s on candidate %s", cd.V, v, cd.Fam))
+				}
+			}
+		}
+		// typed errors at every position, each with a valid and with a non-parsing 48-byte signature
+		for _, sg := range [][]byte{agg, malformed} {
+			for _, pos := range positions {
+				bh := append([]hash.Hasher{}, hashers...)
+				bh[pos] = nil
+				if ok, e := crypto.VerifyBLSSignatureManyMessages(pks, sg, msgs, bh); !crypto.IsNilHasherError(e) || ok {
+					fail(fmt.Sprintf("nil hasher at index %d of %d not reported (%v, %v)", pos, n, ok, e))
+				}
+				for _, sz := range []int{0, 127, 129, 256} {
+					bh[pos] = &fixedHasher{make([]byte, sz)}
+					if ok, e := crypto.VerifyBLSSignatureManyMessages(pks, sg, msgs, bh); !crypto.IsInvalidHasherSizeError(e) || ok {
+						fail(fmt.Sprintf("hasher of size %d at index %d of %d not reported (%v, %v)", sz, pos, n, ok, e))
+					}
+				}
+				allNonId := true
+				for _, t := range in.Triples[:pos] {
+					if new(big.Int).SetBytes(unhx(t.Scalar)).Sign() == 0 {
+						allNonId = false // an identity key earlier in the list decides first
+					}
+				}
+				for _, foreign := range []crypto.PublicKey{ek.PublicKey(), nil} {
+					bp := append([]crypto.PublicKey{}, pks...)
+					bp[pos] = foreign
+					var ok bool
+					var e error
+					if pn, m := catch(func() { ok, e = crypto.VerifyBLSSignatureManyMessages(bp, sg, msgs, hashers) }); pn {
+						fail(fmt.Sprintf("panic with a non-BLS key (%v) at index %d of %d: %s", foreign, pos, n, m))
+					} else if allNonId && (!crypto.IsNotBLSKeyError(e) || ok) {
+						fail(fmt.Sprintf("non-BLS key (%v) at index %d of %d not reported (%v, %v)", foreign, pos, n, ok, e))
+					}
+				}
+			}
+			// every way the three lists can differ in length
+			longer := func() ([]crypto.PublicKey, [][]byte, []hash.Hasher) {
+				return append(append([]crypto.PublicKey{}, pks...), pks[0]), append(append([][]byte{}, msgs...), msgs[0]), append(append([]hash.Hasher{}, hashers...), hashers[0])
+			}
+			lp, lm, lh := longer()
+			type trio struct {
+				p []crypto.PublicKey
+				m [][]byte
+				h []hash.Hasher
+			}
+			for i, tr := range []trio{{lp, msgs, hashers}, {pks, lm, hashers}, {pks, msgs, lh}, {lp, lm, hashers}, {lp, msgs, lh}, {pks, lm, lh},
+				{pks, nil, nil}, {pks, msgs, nil}, {pks, nil, hashers}} {
+				if ok, e := crypto.VerifyBLSSignatureManyMessages(tr.p, sg, tr.m, tr.h); !crypto.IsInvalidInputsError(e) || ok {
+					fail(fmt.Sprintf("list lengths %d/%d/%d (variant %d) not reported as invalid input (%v, %v)", len(tr.p), len(tr.m), len(tr.h), i, ok, e))
+				}
+			}
+			for _, l := range [][]crypto.PublicKey{nil, {}} {
+				if ok, e := crypto.VerifyBLSSignatureManyMessages(l, sg, msgs, hashers); !crypto.IsBLSAggregateEmptyListError(e) || ok {
+					fail(fmt.Sprintf("empty key list with %d messages not reported (%v, %v)", n, ok, e))
+				}
+			}
+		}
 		perm := rr.Perm(len(pks))
 		var pp []crypto.PublicKey
 		var pm [][]byte
@@ -286,9 +612,9 @@ func c02Run(c Case) (Result, error) {
 		for _, i := range perm {
 			pp, pm, ph = append(pp, pks[i]), append(pm, msgs[i]), append(ph, hashers[i])
 		}
-		for _, cd := range cands[:3] {
-			if verify(unhx(cd.Bytes), pp, pm, ph) != cd.V {
-				fail("verdict depends on the order of the triples")
+		for _, cd := range cands {
+			if cd.Fam != "nil-signature" && verify(unhx(cd.Bytes), pp, pm, ph) != cd.V {
+				fail(fmt.Sprintf("verdict on candidate %s depends on the order of the triples (permutation %v)", cd.Fam, perm))
 			}
 		}
 		if _, e := crypto.VerifyBLSSignatureManyMessages(pks, agg, msgs[:len(msgs)-1], hashers); !crypto.IsInvalidInputsError(e) && len(pks) > 1 {
@@ -312,12 +638,20 @@ func c02Run(c Case) (Result, error) {
 		if _, e := crypto.VerifyBLSSignatureManyMessages(pks, agg, msgs, bh); !crypto.IsInvalidHasherSizeError(e) {
 			fail("wrong-size hasher not reported")
 		}
-		ek, _ := crypto.GeneratePrivateKey(crypto.ECDSAP256, rbytes(rr, 32))
 		bp := append([]crypto.PublicKey{}, pks...)
 		bp[0] = ek.PublicKey()
 		if _, e := crypto.VerifyBLSSignatureManyMessages(bp, agg, msgs, hashers); !crypto.IsNotBLSKeyError(e) {
 			fail("non-BLS key not reported")
 		}
+	}
+	// arguments are read only
+	for i := range pks {
+		if !bytes.Equal(pks[i].Encode(), pkEnc0[i]) || !bytes.Equal(msgs[i], msgs0[i]) {
+			return Result{}, implViolation("verification modified its arguments: key %d now %x (was %x), message %d now %x (was %x)", i, pks[i].Encode(), pkEnc0[i], i, msgs[i], msgs0[i])
+		}
+	}
+	if !bytes.Equal(agg, agg0) {
+		return Result{}, implViolation("verification modified the signature argument: %x, was %x", agg, agg0)
 	}
 	var items []string
 	for _, cd := range cands {
